@@ -110,9 +110,10 @@ CLAIMS = {
         "reduces to the single term YF2 zeta_l cba (the difference coefficients a001, a501, a5z1 vanish); the three parameter fillers hand exactly the documented model getters to the kernels; "
         "callee contracts re-registered: dxlog series (C11), definitions of f_PS, f_S, f_CSl, F1, F1~, F2, F3 (C01).  Fourteen two-loop bosonic kernels (T0, T1, T5, T6, T9, T10, YF1, YFW, YFZ, YF2, YF3, b, Fm0, Fmp) "
         "equal, on every path and for ALL arguments, the definitions of the repository's own reference file math/THDMTwoLoopB.m (parsed on every run) as ring identities in the arguments and ln, Li2, f_PS, Phi "
-        "(argument shifts = identity; lemma Phi(x,y,y) = x/(2y) f_PS(y/x)(x-4y) assumed) -- so the decoupling of the published formulas is what the code computes.  BOUNDED stand-in for the decoupling ratio itself: "
+        "(argument shifts = identity; lemma Phi(x,y,y) = x/(2y) f_PS(y/x)(x-4y) assumed) -- so the decoupling of the published formulas is what the code computes.  The assemblies amu2L_B_Yuk == amu2LBYuk (Eq. 52, 91-98; Lambda567 := Lambda5 + Lambda67/(tb - 1/tb)) and amu2L_B_nonYuk == amu2LBNonYuk (Eq. 71; the code's TX/T4/dxlog combination reproduces the reference sums of T2+, T2-, T4) "
+        "are ring identities with the kernels as callees by contract; replay: real code vs 40-digit evaluation of the reference file (agreement 1e-10 at the replay points).  BOUNDED stand-in for the decoupling ratio itself: "
         "real library on 8 gauge-basis families x 4 heavy scales, |a(M sqrt10)| <= 0.45 |a(M)| per component (one open finding: rounding noise at 31.6 TeV, KNOWN-FINDING).",
-   note=NOTE_COMMON + "NOT decided by contracts (stated): the decoupling rate (v/M)^2 of the genuine BSM terms (an asymptotic statement: bounded sweep only, labelled bounded); T2/T4/T7/T8, amu2L_B_EWadd and the assembly in amu2L_B_nonYuk/Yuk are not compared with the reference file (different but equivalent special-function bases); the chain model -> y_f^h = m_f/v at cos(beta-alpha)=0 "
+   note=NOTE_COMMON + "NOT decided by contracts (stated): the decoupling rate (v/M)^2 of the genuine BSM terms (an asymptotic statement: bounded sweep only, labelled bounded); T7/T8 (complex square roots) and amu2L_B_EWadd (a different but equivalent basis of special functions) are compared with the reference file only numerically (EWadd: bounded, 4 points at 40 digits; T7/T8 inside the nonYuk replay); the chain model -> y_f^h = m_f/v at cos(beta-alpha)=0 "
         "uses C09's getter contracts; ring normalisation (sympy) is in the trusted base for the two rational-function identities.",
    technique="relational lemmas: symbolic execution of extracted kernels + z3 NRA / ring normalisation (sympy); reference formulas parsed from math/THDMTwoLoopB.m; bounded native sweep for the decoupling ratio", design='5 C10'),
  'C11': dict(
